@@ -227,9 +227,10 @@ class Spec:
         if z3.is_fp(l) or z3.is_fp(r):
             l, r = self.unify(l, r)
             rm = z3.RNE()
-            if isinstance(op, ast.Add): return z3.fpAdd(rm, l, r)
+            from .llbmc import fp_comm
+            if isinstance(op, ast.Add): return fp_comm('add', l, r)
             if isinstance(op, ast.Sub): return z3.fpSub(rm, l, r)
-            if isinstance(op, ast.Mult): return z3.fpMul(rm, l, r)
+            if isinstance(op, ast.Mult): return fp_comm('mul', l, r)
             if isinstance(op, ast.Div): return z3.fpDiv(rm, l, r)
             raise SpecNotExecutable('float operator ' + type(op).__name__)
         l, r = to_int(l), to_int(r)
